@@ -1,2 +1,166 @@
-/-! Line driver for C04 (stub; replaced when the model is written). -/
-def main : IO Unit := pure ()
+import MpVerif.C04.Model
+import MpVerif.C04.Trace
+/-! Line driver for C04.  One op per line; prints one canonical line per op (`bad-op` if not understood).
+
+    graph <nnodes> <size_0> ... <size_{n-1}>     start a new graph (resets entries, bounds, node contents)
+    entry copy <sn> <sb> <sl> <dn> <db> <dl>
+    entry m2m  <sn> <sb> <sl> <dn> <db> <dl>
+    entry r2s <csn> <csi> <ctn> <cti> <vsn> <vsi> <lb> <nlin> (<c> <v>)* <nquad> (<c> <v1> <v2>)*
+    bounds <n> (<lb> <ub>)*                      variable bounds of the flat model, `-` = infinite
+    wf <sv> <dv> <n>                             -> `wf <inBounds> <wfVars>`
+    call <pre|post> <kind> <clampnode|-> <nin> (<node> <len> <v>*)* <nout> <node>*
+                                                 -> `ok <node>: v v v | <node>: ...` or `raise`
+         node contents persist between calls exactly as in `session` (each call = `runFrom prev`)
+    trace <pre|post> <kind> <node> <idx> <nloaded> <node>*   -> symbolic origin of a cell (see Trace.lean)
+-/
+open MpVerif.C04
+
+def parseRat (s : String) : Option Rat :=
+  match s.splitOn "/" with
+  | [a] => a.toInt?.map (fun n => (n : Rat))
+  | [a, b] => match a.toInt?, b.toNat? with
+    | some n, some d => if d = 0 then none else some (mkRat n d)
+    | _, _ => none
+  | _ => none
+
+def showRat (r : Rat) : String := if r.den = 1 then toString r.num else s!"{r.num}/{r.den}"
+
+def parseKind : String → Option Kind
+  | "generic" => some .generic | "sol" => some .sol | "basis" => some .basis
+  | "iis" => some .iis | "lazy" => some .lazy | _ => none
+
+def parseDir : String → Option Dir
+  | "pre" => some .pre | "post" => some .post | _ => none
+
+structure DState where
+  g : Graph := ⟨[], []⟩
+  lbs : List (Option Rat) := []
+  ubs : List (Option Rat) := []
+  prev : St := ⟨fun _ => 0⟩
+
+def nats (l : List String) : Option (List Nat) := l.mapM String.toNat?
+def rats (l : List String) : Option (List Rat) := l.mapM parseRat
+
+/-- parse `<node> <len> v*` groups -/
+partial def parseInputs : Nat → List String → Option (List (Nat × List Rat) × List String)
+  | 0, rest => some ([], rest)
+  | k + 1, n :: len :: rest => do
+    let n ← n.toNat?
+    let len ← len.toNat?
+    if rest.length < len then none
+    let vs ← rats (rest.take len)
+    let (more, rest') ← parseInputs k (rest.drop len)
+    pure ((n, vs) :: more, rest')
+  | _, _ => none
+
+def parseBound (s : String) : Option (Option Rat) := if s = "-" then some none else (parseRat s).map some
+
+partial def parseBounds : List String → Option (List (Option Rat) × List (Option Rat))
+  | [] => some ([], [])
+  | a :: b :: rest => do
+    let l ← parseBound a
+    let u ← parseBound b
+    let (ls, us) ← parseBounds rest
+    pure (l :: ls, u :: us)
+  | _ => none
+
+partial def parseLin : Nat → List String → Option (List (Rat × Nat) × List String)
+  | 0, rest => some ([], rest)
+  | k + 1, c :: v :: rest => do
+    let c ← parseRat c
+    let v ← v.toNat?
+    let (more, rest') ← parseLin k rest
+    pure ((c, v) :: more, rest')
+  | _, _ => none
+
+partial def parseQuad : Nat → List String → Option (List (Rat × Nat × Nat) × List String)
+  | 0, rest => some ([], rest)
+  | k + 1, c :: v1 :: v2 :: rest => do
+    let c ← parseRat c
+    let v1 ← v1.toNat?
+    let v2 ← v2.toNat?
+    let (more, rest') ← parseQuad k rest
+    pure ((c, v1, v2) :: more, rest')
+  | _, _ => none
+
+def handle (st : DState) (toks : List String) : DState × String :=
+  match toks with
+  | "graph" :: n :: sizes =>
+    match n.toNat?, nats sizes with
+    | some n, some sz => if sz.length = n then ({ g := ⟨[], sz⟩ }, "graph") else (st, "bad-op")
+    | _, _ => (st, "bad-op")
+  | ["entry", kind, sn, sb, sl, dn, db, dl] =>
+    match nats [sn, sb, sl, dn, db, dl] with
+    | some [sn, sb, sl, dn, db, dl] =>
+      let s : Rng := ⟨sn, sb, sl⟩
+      let d : Rng := ⟨dn, db, dl⟩
+      if kind = "copy" then ({ st with g := { st.g with entries := st.g.entries ++ [.copy s d] } }, "entry")
+      else if kind = "m2m" then ({ st with g := { st.g with entries := st.g.entries ++ [.m2m s d] } }, "entry")
+      else (st, "bad-op")
+    | _ => (st, "bad-op")
+  | "entry" :: "r2s" :: csn :: csi :: ctn :: cti :: vsn :: vsi :: lb :: nlin :: rest =>
+    match nats [csn, csi, ctn, cti, vsn, vsi, nlin], parseRat lb with
+    | some [csn, csi, ctn, cti, vsn, vsi, nlin], some lb =>
+      match parseLin nlin rest with
+      | some (lin, nq :: rest') =>
+        match nq.toNat? with
+        | some nq =>
+          match parseQuad nq rest' with
+          | some (quad, []) =>
+            ({ st with g := { st.g with entries := st.g.entries ++ [.r2s (csn, csi) (ctn, cti) (vsn, vsi) ⟨lin, quad, lb⟩] } }, "entry")
+          | _ => (st, "bad-op")
+        | none => (st, "bad-op")
+      | _ => (st, "bad-op")
+    | _, _ => (st, "bad-op")
+  | "bounds" :: n :: rest =>
+    match n.toNat?, parseBounds rest with
+    | some n, some (ls, us) => if ls.length = n then ({ st with lbs := ls, ubs := us }, "bounds") else (st, "bad-op")
+    | _, _ => (st, "bad-op")
+  | ["wf", sv, dv, n] =>
+    match nats [sv, dv, n] with
+    | some [sv, dv, n] => (st, s!"wf {if st.g.inBounds then 1 else 0} {if st.g.wfVars sv dv n then 1 else 0}")
+    | _ => (st, "bad-op")
+  | "call" :: dir :: kind :: clamp :: nin :: rest =>
+    match parseDir dir, parseKind kind, nin.toNat? with
+    | some dir, some kind, some nin =>
+      match parseInputs nin rest with
+      | some (inputs, nout :: outs) =>
+        match nout.toNat?, nats outs with
+        | some nout, some outs =>
+          if outs.length ≠ nout then (st, "bad-op") else
+          let r := runFrom st.g st.prev ⟨dir, kind, inputs⟩
+          match r with
+          | none => (st, "raise")            -- node contents after a raise are unspecified; next call cleans them
+          | some S =>
+            let clampNode : Option Nat := clamp.toNat?
+            let line := outs.map (fun n =>
+              let v := readNode S n (st.g.size n)
+              let v := if clampNode = some n then clampVec st.lbs st.ubs v else v
+              s!"{n}: " ++ " ".intercalate (v.map showRat))
+            ({ st with prev := S }, "ok " ++ " | ".intercalate line)
+        | _, _ => (st, "bad-op")
+      | _ => (st, "bad-op")
+    | _, _, _ => (st, "bad-op")
+  | "trace" :: dir :: kind :: node :: idx :: nl :: loaded =>
+    match parseDir dir, parseKind kind, nats [node, idx, nl], nats loaded with
+    | some dir, some kind, some [node, idx, nl], some loaded =>
+      if loaded.length ≠ nl then (st, "bad-op") else
+      let zero : Cell → Bool := fun c => !loaded.contains c.1
+      let o := match dir with
+        | .post => tracePost kind zero st.g.entries (node, idx)
+        | .pre => tracePre kind zero st.g.entries.reverse (node, idx)
+      (st, "trace " ++ (match o with | some o => o.show | none => "none"))
+    | _, _, _, _ => (st, "bad-op")
+  | _ => (st, "bad-op")
+
+partial def loop (h out : IO.FS.Stream) (st : DState) : IO Unit := do
+  let line ← h.getLine
+  if line.isEmpty then return ()
+  let toks := (line.trimAscii.toString.splitOn " ").filter (· ≠ "")
+  let (st', res) := handle st toks
+  out.putStrLn res
+  out.flush
+  loop h out st'
+
+def main : IO Unit := do
+  loop (← IO.getStdin) (← IO.getStdout) {}
